@@ -38,7 +38,7 @@ def gen_history(rng, maxops):
             ops.append(("mode", sanitize))
         elif r < 0.4:
             kind = rng.choice(["byte", "char", "short", "three", "int"])
-            ops.append(("add_" + kind, V.rand_int(rng, kind)))
+            ops.append(("add_" + kind, V.intlike(rng, V.rand_int(rng, kind))))
         elif r < 0.47:
             ops.append(("add_bytes", bytes(rng.randrange(256) for _ in range(rng.randrange(0, 7)))))
         else:
@@ -90,7 +90,7 @@ def run_history(ns, rec, hist):
             getattr(w, op[0])(*op[1:])
             name = op[0]
             if name in ("add_byte", "add_char", "add_short", "add_three", "add_int"):
-                expect.append((name.replace("add_", "get_"), (), op[1]))
+                expect.append((name.replace("add_", "get_"), (), int(op[1])))  # whatever int type was written, a plain int comes back
             elif name == "add_bytes":
                 expect.append(("get_bytes", (len(op[1]),), bytearray(op[1])))
             elif name in ("add_string", "add_encoded_string"):
